@@ -13,6 +13,7 @@ Requests
   {"op":"xml_read","tree":X,"mode":"strict"|"lenient","guards":"fixed"|"original",
    "csvfail":[raw...],"env":[{"kind":K,"args":A,"fail":b,"auto":null|"name"}...]}
   {"op":"xml_text","parsed":"syntaxError"|"valueError","mode":..,"guards":..}
+  {"op":"xml_stack","tree":X}
   {"op":"dict_calls","value":J}
   {"op":"dict_read","value":J,"mode":..,"guards":..,"env":[{"kind":K,"args":D,"fail":b,"auto":null|J}...]}
 -/
@@ -226,6 +227,10 @@ def handle (j : Json) : Except String Json := do
     let x ← decXml (← getVal j "tree")
     let env ← decEnv j
     pure (encRes jchars (readXml (← decGuards j) env (← decMode j) x))
+  | "xml_stack" =>
+    -- frames of the reader's module the model allows for this tree, and the nesting depth of its elements
+    let x ← decXml (← getVal j "tree")
+    pure (jobj [("stack", jnat (readerStack x)), ("depth", jnat (Xml.depth x))])
   | "xml_text" =>
     let p ← match ← getStr j "parsed" with
       | "syntaxError" => pure Parsed.syntaxError
